@@ -450,3 +450,90 @@ def rf60(run):
                              'the C compiler rejects a static definition after a non-static declaration' if not exported
                              else 'the exported function loses external linkage'))
     return n
+
+
+# ---------------------------------------------------------------------------------------------
+# RF61: the text of a call argument depends only on its own parameter
+# ---------------------------------------------------------------------------------------------
+
+def rf61(run):
+    from lib import printexec as PE
+    import itertools
+    rule = 'RF61'
+    run.rule(rule, 'mir2c call translation, executed abstractly for prototypes with 0 or 1 result and two parameters of types drawn from '
+                   '{i64, d, p, blk}: the text printed for argument k (casts and operand) is a function of the type of parameter k alone '
+                   '(not of another parameter, not of the presence of a result), the arguments are separated by commas in operand order, '
+                   'and a result is assigned from the call')
+    tu = run.tu('mir2c')
+    f = tu.func('out_insn')
+    run.functions_analysed.add(('mir2c', 'out_insn'))
+    sws = R.find_switches(f, lambda c: c.endswith('->code') or c == 'code')
+    if not sws:
+        raise F.AnalysisBroken('switch on insn->code not found in mir2c out_insn')
+    sw = max(sws, key=lambda s: len(R.switch_regions(f, s)))
+    reg = [r for r in R.switch_regions(f, sw) if 'MIR_CALL' in [c[0] for c in r['cases']]]
+    if not reg:
+        raise F.AnalysisBroken('mir2c out_insn: no MIR_CALL case')
+    stmts = reg[0]['stmts']
+    ty = dict(tu.enum('MIR_type_t'))
+    modes = dict(tu.enum('MIR_op_mode_t'))
+    codes = dict(tu.enum('MIR_insn_code_t'))
+    tset = ['MIR_T_I64', 'MIR_T_D', 'MIR_T_P', 'MIR_T_BLK']
+    table = {}
+    n = 0
+    for nres in (0, 1):
+        for types in itertools.product(tset, repeat=2):
+            start = 2 + nres
+            env = {'insn->code': codes['MIR_CALL'], 'code': codes['MIR_CALL'], 'insn->nops': start + 2, 'nops': start + 2,
+                   'ops[0].mode': modes['MIR_OP_REF'], 'ops[0].u.ref': 1, 'proto': 2, 'ops[1].mode': modes['MIR_OP_REG']}
+            for i in range(2, start + 2):
+                env['ops[%d].mode' % i] = modes['MIR_OP_REG']
+            heap = {1: {'->item_type': dict(tu.enum('MIR_item_type_t'))['MIR_proto_item'], '->u.proto': 2},
+                    2: {'->nres': nres, '->res_types[0]': ty['MIR_T_I64'], '->args': 3, '->vararg_p': 0}}
+            argn = [0]
+
+            def vget(args, env_, ex, types=types):
+                i = ex.val(args[1], env_)
+                if not isinstance(i, int) or not (0 <= i < 2):
+                    raise F.AnalysisBroken('prototype parameter index `%s` outside the model' % F.src(args[1])[:40])
+                return {'type': ty[types[i]], 'size': 16, 'name': 1}
+
+            def outop(args, env_, ex):
+                argn[0] += 1
+                return '$'
+            ex = PE.PrintExec(tu, heap, {'VARR_MIR_var_tget': vget, 'VARR_MIR_var_tlength': lambda a, e, x: 2,
+                                         'MIR_all_blk_type_p': lambda a, e, x: int(ty['MIR_T_BLK'] <= x.val(a[0], e) <= ty['MIR_T_RBLK']),
+                                         'MIR_blk_type_p': lambda a, e, x: int(ty['MIR_T_BLK'] <= x.val(a[0], e) < ty['MIR_T_RBLK'])},
+                              {'out_op': outop})
+            env['ops[0].u.ref->u.proto'] = 2
+            for st in stmts:
+                r = ex.run(st, env)
+                if r in ('break', 'return'):
+                    break
+            txt = ' '.join(ex.text().split())
+            import re
+            m = re.fullmatch(r'(?P<res>\$ = (?P<rc>(?:\([\w *]+\) ?)*))?\(\(X\) \$\) \((?P<args>.*)\);', txt)
+            n += 1
+            ok = m is not None and bool(m.group('res')) == bool(nres)
+            parts = None
+            if ok:
+                parts = [a.strip() for a in m.group('args').split(',')]
+                ok = len(parts) == 2 and all(a.endswith('$') for a in parts)
+            run.ob(rule, ('shape', nres, types), ok, {'results': nres, 'parameters': types, 'text': txt} if (nres, types) in ((0, (tset[0], tset[0])), (1, (tset[1], tset[2]))) or not ok else None)
+            if not ok:
+                run.violation(rule, f, 'call text', 'the call of a prototype with %d result(s) and parameters %s is printed as `%s`: expected '
+                              '`[$ = ] ((proto) $) (arg, arg);`' % (nres, types, txt), line=stmts[0]['l'])
+                continue
+            for k in (0, 1):
+                table.setdefault((k, types[k]), {}).setdefault(parts[k], []).append((nres, types))
+    for (k, t), forms in sorted(table.items()):
+        n += 1
+        ok = len(forms) == 1
+        run.ob(rule, ('argument', k, t), ok, {'argument': k, 'parameter type': t, 'text': sorted(forms)})
+        if not ok:
+            ex_ = {a: b[0] for a, b in forms.items()}
+            run.violation(rule, f, 'argument %d of type %s' % (k, t), 'argument %d whose parameter has type %s is printed differently depending '
+                          'on the rest of the prototype: %s — the decoration is taken from another parameter (operand index and parameter '
+                          'index differ by 2 + number of results)' % (k, t, '; '.join('`%s` for %d result(s), parameters %s' % (a, b[0], b[1])
+                                                                                   for a, b in sorted(ex_.items()))), line=stmts[0]['l'])
+    return n
